@@ -192,6 +192,42 @@ def vstackGet {α} [Zero α] : List (Arr2 α) → Nat → Nat → α
 def vstack {α} [Zero α] (l : List (Arr2 α)) : Arr2 α :=
   ⟨(l.map (·.rows)).sum, (l.head?.map (·.cols)).getD 0, vstackGet l⟩
 
+/-- a sparsity weight: one number or an `NW × NW` array (`isinstance` dispatch in `compute_lambda_sum`) -/
+inductive Lambda (α : Type) where
+  | scalar (v : α)
+  | matrix (M : Arr2 α)
+
+/-- the fields of `ADMMArguments` the translated solver steps read -/
+structure ADMMArgs (α : Type) where
+  window_size : Int
+  num_data_series : Int
+  rho : α
+  sparsity_weight : Lambda α
+
+/-- `a.size` of a vector -/
+def Arr1.size {α} (a : Arr1 α) : Int := a.n
+
+/-- `np.sum(a[index_list])` -/
+def Arr1.sumAt {α} [Zero α] [Add α] (a : Arr1 α) (is : List Int) : α :=
+  is.foldl (fun acc i => acc + a.get (idx a.n i)) 0
+
+/-- `np.sum(M[rows, cols])` (fancy indexing with two index lists) -/
+def Arr2.sumAt {α} [Zero α] [Add α] (M : Arr2 α) (rows cols : List Int) : α :=
+  (rows.zip cols).foldl (fun acc p => acc + M.get (idx M.rows p.1) (idx M.cols p.2)) 0
+
+/-- a raising call inside a loop: remember the FIRST error, go on with a default (the error is thrown after the loop;
+nothing computed after the first error is observable) -/
+def firstErr {β} (err : Option String) (t : Except String β) : Option String :=
+  match err, t with
+  | some e, _ => some e
+  | none, .error e => some e
+  | none, .ok _ => none
+
+def okOr {β} (t : Except String β) (d : β) : β :=
+  match t with
+  | .ok v => v
+  | .error _ => d
+
 /-- the switching-cost argument of the labelling kernel: one number or one per point -/
 inductive ScalarOrVec (α : Type) where
   | scalar (v : α)
